@@ -21,7 +21,8 @@ def run(ctx):
     ctx.not_claimed(_pipe.OUTSIDE + '; trees obtained through diff-cache histories (see C04)')
     C = []
     ks = [35, 14, 24] if q else [35, 14, 24, 0, 3, 6, 11, 17, 18, 21]
-    C += PC.text_holes(ctx, own, ks, clauses='c20', timeout=600 if q else 2400)
+    if not q:
+        C += PC.text_holes(ctx, own, ks, clauses='c20', timeout=600 if q else 2400)
     C += PC.spell_holes(ctx, own, [0, 17] if q else range(len(P.SPELL)), clauses='c20', alpha='lOIaifn_')
     C += PC.label_holes(ctx, own, [19, 21, 20] if q else range(len(P.SKELS)), vis=(4,) if q else (0, 4, 8),
                         clauses=PC.SHARED + ',c13,c19,c20,c20t')
